@@ -19,7 +19,7 @@ CONSTANTS
   Windows <- AllWindows
   Points <- AllPoints
   SpanChoice <- NoSpanChoice
-  SubsetCats = {0, 4}
+  SubsetCats = {0}
   Ops = {"Subset", "QueryList"}
   Others <- OthersNone
   UpdateSeqids = {}
